@@ -20,6 +20,7 @@ type Dest struct {
 	Sock    int    // index of the target socket (IP) this dest lives on
 	Name    string // non-empty: addressed by name
 	AltPort bool   // addressed with the port of the target's second ("alt") socket: same IP / same name, other port
+	Port0   bool   // the target's IP with port 0: the kernel refuses to send such a datagram (EINVAL)
 }
 
 // Arrival is one datagram seen at a harness-owned endpoint (target socket or upstream proxy).
@@ -169,6 +170,13 @@ func (w *World) AddDestAltPort(sock int, name string) int {
 	return d.Index
 }
 
+// AddDestPort0 registers the unsendable destination ip:0 on a target's IP.
+func (w *World) AddDestPort0(sock int) int {
+	d := Dest{Index: len(w.Dests), Sock: sock, Port0: true}
+	w.Dests = append(w.Dests, d)
+	return d.Index
+}
+
 // DestSock is the index of the socket that must receive datagrams addressed to dest i.
 func (w *World) DestSock(i int) int {
 	d := w.Dests[i]
@@ -184,6 +192,9 @@ func (w *World) DestAddr(i int) conn.Addr {
 	port := w.Port
 	if d.AltPort {
 		port = w.SockAddr(w.NSock() + d.Sock).Port()
+	}
+	if d.Port0 {
+		port = 0
 	}
 	if d.Name != "" {
 		return conn.MustAddrFromDomainPort(d.Name, port)
